@@ -19,6 +19,9 @@ for f in sorted(glob.glob("/tmp/seedres/*.json")):
         print(name, "source dir gone"); continue
     dst = os.path.join(V, "seeded", name)
     os.makedirs(dst, exist_ok=True)
+    note = None
+    if os.path.exists(os.path.join(dst, "meta.json")):
+        note = json.load(open(os.path.join(dst, "meta.json"))).get("note_coordinator")
     for fn in os.listdir(src):
         p = os.path.join(src, fn)
         if os.path.isfile(p) and os.path.getsize(p) < 300000 and fn.endswith((".diff", ".cpp", ".txt", ".json", ".sh", ".hpp", ".md")):
@@ -31,6 +34,8 @@ for f in sorted(glob.glob("/tmp/seedres/*.json")):
             rep[cid] = {"violation_lines": len(v), "with_failing_input": sum("no-failing-input-found" not in l for l in v),
                         "first": v[0].replace(V + "/", "")[:200]}
     meta["property"] = d["id"]
+    if note:
+        meta["note_coordinator"] = note
     meta["detected"] = bool(rep)
     meta["reported_by"] = ", ".join("%s (%d failing-input replay%s%s)" % (k, r["with_failing_input"], "s" if r["with_failing_input"] != 1 else "", ", correspondence" if r["violation_lines"] > r["with_failing_input"] else "") for k, r in rep.items()) or "NOT REPORTED by the checks run (%s)" % ",".join(d["checks"].keys())
     meta["suite"] = "70 baseline tests pass with the change (full suite, incremental build in scratch worktree of /repo HEAD)"
